@@ -38,6 +38,7 @@ type c02Run struct {
 	lastExit ExitReason
 	hosts    int
 	pcA, pcB ProgramCounter // counters returned on the last leg
+	gasLeft  Gas            // gas both engines are left with when they agree
 }
 
 func c02ExitName(e ExitReason) string {
@@ -129,7 +130,7 @@ func c02Both(pa, pb *Program, w *c01World, gas uint64, want bool) c02Run {
 			out.detail = D("leg %d exit %s: %s", leg, la.exit, d)
 			return out
 		}
-		out.lastPC, out.lastExit = la.cont, la.exit
+		out.lastPC, out.lastExit, out.gasLeft = la.cont, la.exit, A.Gas
 		if !host {
 			return out
 		}
@@ -212,14 +213,34 @@ func c02Check(r *vlib.Run, blob []byte, w *c01World, gas uint64, note string) st
 	r.TransitionN(2)
 	full := c02Both(pa, pb, w, gas, false)
 	class := fmt.Sprintf("legs=%d exit=%s", min(full.legs, 3), c02ExitName(full.exitA))
-	if !full.differ {
-		return class + " agree"
-	}
-	// localise: smallest gas at which the engines already differ; the counter
-	// both report with one unit less (an out-of-gas exit) is the blamed instruction
 	cul := full
 	culGas := gas
-	if gas >= 1 {
+	if !full.differ {
+		// gas axis (program sweep and resumption programs): a run that finishes within
+		// n <= 12 gas units is repeated with every limit 0..n+1, so that every step of it is
+		// also the step at which the gas reaches exactly 0
+		if !c02GasAxis(note) || full.lastExit.GetReasonType() == OUT_OF_GAS {
+			return class + " agree"
+		}
+		n := uint64(Gas(gas) - full.gasLeft)
+		if n > c02GasAxisMax {
+			return class + " agree long"
+		}
+		found := false
+		for g := uint64(0); g <= n+1 && g < gas; g++ {
+			r.TransitionN(2)
+			if rg := c02Both(pa, pb, w, g, false); rg.differ {
+				cul, culGas, found = rg, g, true
+				break
+			}
+		}
+		if !found {
+			return class + fmt.Sprintf(" agree gas0..%d", min(n, 4)+1)
+		}
+		class += " differ-below-full-gas"
+	} else if gas >= 1 {
+		// localise: smallest gas at which the engines already differ; the counter
+		// both report with one unit less (an out-of-gas exit) is the blamed instruction
 		lo, hi := uint64(0), gas
 		// the step count is not known without a reference: plain binary search
 		for lo < hi {
@@ -279,10 +300,20 @@ func c02Check(r *vlib.Run, blob []byte, w *c01World, gas uint64, note string) st
 		if err == nil {
 			opb, sk = rp.Zeta(blame), rp.Skip(blame)
 		}
+		fd := f.detail
+		if !f.differ {
+			fd = "the engines agree"
+		}
 		return fmt.Sprintf("blob %x world %s gas %d: %s [first difference with gas %d; blamed instruction: opcode %d at pc %d, skip %d; with the full gas: %s]",
-			blob, w.name, gas, d.detail, culGas, opb, blame, sk, f.detail)
+			blob, w.name, gas, d.detail, culGas, opb, blame, sk, fd)
 	}, func() c01Case { return c01CaseJSON(blob, w, gas, note) })
-	return class + " differ=" + full.kind
+	return class + " differ=" + cul.kind
+}
+
+const c02GasAxisMax = 12
+
+func c02GasAxis(note string) bool {
+	return note == "prog" || note == "prog4" || note == "resume"
 }
 
 func TestVerif_C02(t *testing.T) {
